@@ -22,6 +22,28 @@ def oracle_vector(r, interp, xg, xc):
 
     vals, errs = [], []
     nodes = [u for u in xg if xc < u < 1.0]
+    # massive kernels vanish identically above the pair threshold z_max < 1: the edge of the support is a break point of the
+    # integrand (QUADPACK under-estimated its error by seven orders of magnitude when it was not told; thorough tier, false alarm)
+    def nonzero(f, a, z):
+        try:
+            return float(f(z, r.args[a])) != 0.0
+        except ZeroDivisionError:   # exactly on the threshold (beta = 0), a null set
+            return False
+
+    for f, a in ((r.reg, "reg"), (r.sing, "sing")):
+        if f is None or xc >= 1.0 or nonzero(f, a, 1.0 - 1e-9):
+            continue
+        lo, hi = xc, 1.0 - 1e-9
+        if not nonzero(f, a, 0.5 * (lo + hi)) and not nonzero(f, a, lo * (1 + 1e-9)):
+            continue   # nowhere supported
+        for _ in range(70):
+            mid = 0.5 * (lo + hi)
+            if nonzero(f, a, mid):
+                lo = mid
+            else:
+                hi = mid
+        if xc < xc / lo < 1.0:
+            nodes = sorted(set(nodes) | {xc / lo})
     loc = float(r.loc(xc, r.args["loc"])) if r.loc is not None else 0.0
     for pj in interp:
         if xc >= 1.0 or pj.is_below_x(xc):
@@ -31,12 +53,13 @@ def oracle_vector(r, interp, xg, xc):
         fx = float(pj(xc))
         tot = err = 0.0
         if r.reg is not None:
-            v, e = si.quad(lambda u: float(r.reg(xc / u, r.args["reg"])) * float(pj(u)) / u, xc, 1.0, points=nodes or None,
-                           epsabs=1e-13, epsrel=1e-11, limit=400)
+            v, e = si.quad(lambda u: 0.0 if xc / u >= 1.0 else float(r.reg(xc / u, r.args["reg"])) * float(pj(u)) / u, xc, 1.0,
+                           points=nodes or None, epsabs=1e-13, epsrel=1e-11, limit=400)
             tot, err = tot + v, err + e
         if r.sing is not None:
-            v, e = si.quad(lambda u: xc / u**2 * float(r.sing(xc / u, r.args["sing"])) * (u / xc * float(pj(u)) - fx), xc, 1.0,
-                           points=nodes or None, epsabs=1e-13, epsrel=1e-11, limit=400)
+            # (after many bisections towards the end point u can round to xc: the integrand has a finite limit there, a null set)
+            v, e = si.quad(lambda u: 0.0 if xc / u >= 1.0 else xc / u**2 * float(r.sing(xc / u, r.args["sing"])) * (u / xc * float(pj(u)) - fx),
+                           xc, 1.0, points=nodes or None, epsabs=1e-13, epsrel=1e-11, limit=400)
             tot, err = tot + v, err + e
         vals.append(tot + fx * loc)
         errs.append(err)
@@ -108,7 +131,12 @@ def cell_job(job):
         try:
             res = e.get_result()
             worst, note = 0.0, ""
+            nonfinite = sorted(o for o, ten in expected.items() if not np.all(np.isfinite(res.orders[(o, 0, 0, 0)][0])))
+            lines.append(dict(what="finite", kind=cell["kind"], proc=cell["proc"], fns=cell["fns"], pto=cell["pto"], x=x, ratio=cell.get("ratio", 0),
+                              nf=cell["nf"], finite=not nonfinite, note=f"orders with non-finite entries: {nonfinite}"))
             for o, ten in expected.items():
+                if o in nonfinite:
+                    continue   # judged by the `finite` line; the other orders of the element are still compared
                 got = res.orders[(o, 0, 0, 0)][0]
                 s = max(float(np.abs(got).max()), float(np.abs(ten).max()), 1e-300)
                 d = float(np.abs(got - ten).max()) / s
@@ -154,13 +182,15 @@ def run(ctx):
         ctx.count(1, nontrivial_key=ln["oid"])
     for ln in lines[:: max(1, len(lines) // 3)][:3]:
         ctx.sample({k: v for k, v in ln.items() if k != "oid"})
-    known_nonfinite = lambda ln: ln["what"] == "vector" and ln["order"] == 3 and ln["cls"].startswith("heavy/") and ln["pc"] == "nc"
     bad = ctx.tlc_validate_sharded("Trace_C01", "Trace.cfg", [{k: v for k, v in ln.items() if k != "note"} for ln in lines])
     for oid, clause in bad.items():
         ln = uniq[oid]
         if ln["what"] == "vector":
             key = f"vector:{ln['kind']}_{ln['pc']}:{ln['cls']}:order{ln['order']}:{clause}"
             what = f"{ln['cls']} ({ln['kind']}_{ln['pc']}) order {ln['order']} nf={ln['nf']} {ln['fns']} x={ln['x']}: {clause} [{ln['note']}]"
+        elif ln["what"] == "finite":
+            key = f"finite:{ln['kind']}:{ln['proc']}:{ln['fns']}:pto{ln['pto']}:{clause}"
+            what = f"element {ln['kind']} {ln['proc']} {ln['fns']} pto={ln['pto']} nf={ln['nf']} x={ln['x']}: {clause} [{ln['note']}]"
         else:
             key = f"assembly:{ln['kind']}:{ln['proc']}:{ln['fns']}:pto{ln['pto']}:{clause}"
             what = f"element {ln['kind']} {ln['proc']} {ln['fns']} pto={ln['pto']} x={ln['x']}: {clause} [{ln['note']}]"
